@@ -203,4 +203,134 @@ Section Ref.
     - destruct Hs as (-> & _ & _). eexists. split; [reflexivity|]. cbn [b_nout b_batch b_C b_pending b_inputs].
       split; [auto|]. split; [exists []; rewrite app_nil_r; reflexivity|]. right. right. rewrite HI. auto.
   Qed.
+
+  (** * one sequence of the outer loop *)
+  Definition only_done (qs : list (option seqst)) (ext : list event) : Prop :=
+    forall e, In e ext -> exists k q rs, get_seq qs k = Some q /\ e = EvDone (q_req q) rs.
+
+  Lemma only_done_samples qs ext r : only_done qs ext -> samples_of r ext = [].
+  Proof.
+    induction ext as [|e ext IH]; intro H; [reflexivity|]. cbn [samples_of].
+    assert (IH' : samples_of r ext = []) by (apply IH; intros e' He'; apply H; right; auto).
+    destruct (H e (or_introl eq_refl)) as (k & q & rs & _ & ->). auto.
+  Qed.
+
+  Lemma seq_ref_ext qs l ext C q : only_done qs ext -> seq_ref l C q -> seq_ref (l ++ ext) C q.
+  Proof.
+    intros Hd (W0 & Hin & Hl & Hw). exists W0. split; [apply in_or_app; auto|]. split; [auto|].
+    unfold nsamples in *. rewrite samples_of_app, (only_done_samples qs ext _ Hd), app_nil_r. exact Hw.
+  Qed.
+
+  Lemma out_entry_ext b ext C q : out_entry b C q -> out_entry (b ++ ext) C q.
+  Proof.
+    intros H Hi. destruct (H Hi) as (e & E1 & E2 & E3). exists e. split; [|auto].
+    rewrite outputs_of_app, nth_error_app1; [auto|]. apply nth_error_Some. congruence.
+  Qed.
+
+  Lemma build_one2 p idx :
+    mid_ok cfg (p_slots p) (p_kv p) (p_seqs p) (p_batch p) -> unprocessed (p_seqs p) idx ->
+    mid2 (p_slots p) (p_seqs p) (p_batch p) (p_nout p) (p_log p) ->
+    exists p', build_one cfg p idx = POk p' /\
+      mid2 (p_slots p') (p_seqs p') (p_batch p') (p_nout p') (p_log p') /\
+      (exists ext, p_log p' = p_log p ++ ext /\ only_done (p_seqs p) ext) /\
+      (forall k q', get_seq (p_seqs p') k = Some q' -> exists q, get_seq (p_seqs p) k = Some q /\ q_req q' = q_req q).
+  Proof.
+    intros Hm Hun H2. unfold build_one. fold (get_seq (p_seqs p) idx).
+    destruct (get_seq (p_seqs p) idx) as [q|] eqn:Eq.
+    2:{ exists p. split; [reflexivity|]. split; [exact H2|]. split; [exists []; rewrite app_nil_r; split; [auto|intros e []]|eauto]. }
+    destruct (Hun q Eq) as [Hpend Hinp].
+    pose proof (mo_live _ _ _ _ _ Hm idx q Eq) as Hq.
+    pose proof (get_seq_lt _ _ _ Eq) as Hidx.
+    pose proof (lo_slot _ _ _ _ _ Hq) as Hslot.
+    assert (Hother : forall j q2, j <> idx -> get_seq (p_seqs p) j = Some q2 -> q_slot q2 <> q_slot q).
+    { intros j q2 Hj E2 Hs. apply Hj. eapply (mo_inj _ _ _ _ _ Hm); eauto. }
+    destruct (m2_live _ _ _ _ _ H2 idx q Eq) as [Href Hout].
+    destruct (at_limit q).
+    - (* removeSequence *)
+      eexists. split; [reflexivity|]. cbn [p_slots p_kv p_seqs p_batch p_nout p_log].
+      assert (Hd : only_done (p_seqs p) [EvDone (q_req q) DoneLength]).
+      { intros e [<-|[]]. exists idx, q, DoneLength. auto. }
+      split; [|split; [eauto|]].
+      + constructor.
+        * apply (m2_nout _ _ _ _ _ H2).
+        * intros j q2 E2. destruct (Nat.eq_dec idx j) as [->|Hj]; [rewrite get_seq_set_same in E2 by auto; discriminate|].
+          rewrite get_seq_set_other in E2 by auto. destruct (m2_live _ _ _ _ _ H2 j q2 E2) as [R1 R2].
+          rewrite release_other by (intro E; eapply Hother; [| exact E2 | symmetry; exact E]; auto).
+          split; [eapply seq_ref_ext; eauto|auto].
+        * intros i1 i2 q1 q2 E1 E2 Hs.
+          destruct (Nat.eq_dec idx i1) as [->|H1]; [rewrite get_seq_set_same in E1 by auto; discriminate|].
+          destruct (Nat.eq_dec idx i2) as [->|H2']; [rewrite get_seq_set_same in E2 by auto; discriminate|].
+          rewrite get_seq_set_other in E1, E2 by auto. eapply (m2_req _ _ _ _ _ H2); eauto.
+      + intros k q' E'. destruct (Nat.eq_dec idx k) as [->|Hk]; [rewrite get_seq_set_same in E' by auto; discriminate|].
+        rewrite get_seq_set_other in E' by auto. eauto.
+    - (* the inner loop *)
+      set (C := s_inputs (nth_slot (p_slots p) (q_slot q))) in *.
+      set (b0 := mkB C (p_kv p) (q_pending q) (q_inputs q) (p_batch p) (p_nout p) (q_ibatch q) (p_resume p)).
+      assert (Hn0 : b_nout b0 = length (outputs_of (b_batch b0))) by (apply (m2_nout _ _ _ _ _ H2)).
+      assert (Hres : exists b', build_seq cfg idx (q_slot q) (q_keep q) (q_inputs q) 0 b0 = BOk b' /\
+                 b_nout b' = length (outputs_of (b_batch b')) /\ (exists ext, b_batch b' = p_batch p ++ ext) /\
+                 let q' := mkSeq (skipn (length (b_pending b')) (b_inputs b')) (b_pending b') (q_slot q) (q_npredict q) (q_npredicted q)
+                                 (q_keep q) (q_pend q) (q_stops q) (b_ibatch b') (q_req q) in
+                 seq_ref (p_log p) (b_C b') q' /\ out_entry (b_batch b') (b_C b') q').
+      { destruct Href as (W0 & Hsub & HW0 & Hw). rewrite Hpend in Hw. cbn [app] in Hw.
+        pose proof (ref_win_len (q_keep q) W0 (nsamples (q_req q) (p_log p)) (lo_keep _ _ _ _ _ Hq) HW0) as HWl.
+        destruct Hw as [Hw|(_ & t & HIt & Hdue & Hw)].
+        - (* no shift can be due *)
+          destruct (build_seq_plain idx (q_slot q) (q_keep q) (q_inputs q) (q_inputs q) 0 b0) as (m & b' & E & Hmle & R1 & R2 & R3 & R4 & R5 & R6 & R7); auto.
+          + unfold b0. cbn [b_pending]. rewrite Hpend. reflexivity.
+          + lia.
+          + unfold b0. cbn [b_C]. rewrite <- Hw, zlen_app in HWl. exact HWl.
+          + exists b'. split; [exact E|]. split; [exact R5|]. split; [exact R6|]. cbn zeta.
+            rewrite R1, R3, R4. unfold b0. cbn [b_C]. rewrite firstn_length, Nat.min_l by lia. split.
+            * exists W0. split; [exact Hsub|]. split; [exact HW0|]. cbn [q_req q_keep q_pending q_inputs]. left.
+              rewrite firstn_skipn. exact Hw.
+            * intro Hnil. cbn [q_inputs q_ibatch q_slot q_pending] in *.
+              assert (Hm' : m = length (q_inputs q)).
+              { apply (f_equal (@length tok)) in Hnil. rewrite skipn_length in Hnil. cbn in Hnil. lia. }
+              destruct (R7 Hm') as (e & X1 & X2 & X3).
+              -- destruct (q_inputs q); [congruence|cbn; lia].
+              -- exists e. split; [exact X1|]. split; [exact X2|]. rewrite X3. unfold b0. cbn [b_C].
+                 rewrite zlen_firstn. unfold zlen. lia.
+        - (* a shift is due *)
+          destruct (build_seq_shift idx (q_slot q) (q_keep q) t b0 (lo_keep _ _ _ _ _ Hq)) as (b' & E & R1 & R2 & R3); auto.
+          + unfold b0. cbn [b_C]. pose proof (lo_fit _ _ _ _ _ Hq) as Hf. fold C in Hf. pose proof (zlen_nonneg (q_pending q)). lia.
+          + apply (lo_view _ _ _ _ _ Hq).
+          + rewrite HIt. exists b'. split; [exact E|]. split; [exact R1|]. split; [exact R2|]. cbn zeta. unfold b0 in R3. cbn [b_C b_batch] in R3.
+            destruct R3 as [(X1 & X2 & X3 & X4)|[(X1 & X2 & X3 & e & X4 & X5 & X6)|(X1 & X2 & X3 & X4)]]; rewrite X1, X2, X3; cbn [length skipn].
+            * split.
+              -- exists W0. split; [exact Hsub|]. split; [exact HW0|]. cbn [q_req q_keep q_pending q_inputs]. right. split; [auto|]. exists t. auto.
+              -- intro Hnil. discriminate.
+            * split.
+              -- exists W0. split; [exact Hsub|]. split; [exact HW0|]. cbn [q_req q_keep q_pending q_inputs]. left.
+                 rewrite app_nil_r. symmetry. exact Hw.
+              -- intros _. exists e. cbn [q_ibatch q_slot q_pending]. split; [exact X4|]. split; [exact X5|]. rewrite X6. change (zlen [t]) with 1. lia.
+            * split.
+              -- exists W0. split; [exact Hsub|]. split; [exact HW0|]. cbn [q_req q_keep q_pending q_inputs]. left. symmetry. exact Hw.
+              -- intro Hnil. cbn [q_inputs] in Hnil. apply app_eq_nil in Hnil as [_ Hnil]. discriminate. }
+      destruct Hres as (b' & E & R1 & (ext & R2) & Hq').
+      rewrite E. eexists. split; [reflexivity|]. cbn [p_slots p_kv p_seqs p_batch p_nout p_log]. cbn zeta in Hq'.
+      set (q' := mkSeq (skipn (length (b_pending b')) (b_inputs b')) (b_pending b') (q_slot q) (q_npredict q) (q_npredicted q)
+                       (q_keep q) (q_pend q) (q_stops q) (b_ibatch b') (q_req q)) in *.
+      split; [|split].
+      + constructor.
+        * exact R1.
+        * intros j q2 E2. destruct (Nat.eq_dec idx j) as [<-|Hj].
+          -- rewrite get_seq_set_same in E2 by auto. injection E2 as <-.
+             change (q_slot q') with (q_slot q). rewrite set_slot_inputs_same by auto. cbn [s_inputs]. exact Hq'.
+          -- rewrite get_seq_set_other in E2 by auto. destruct (m2_live _ _ _ _ _ H2 j q2 E2) as [X1 X2].
+             rewrite set_slot_inputs_other by (intro Es; eapply Hother; [| exact E2 | symmetry; exact Es]; auto).
+             split; [exact X1|]. rewrite R2. apply out_entry_ext. exact X2.
+        * intros i1 i2 q1 q2 E1 E2 Hs.
+          assert (G : forall i0 q0, get_seq (set_nth (p_seqs p) idx (Some q')) i0 = Some q0 ->
+                                     exists q00, get_seq (p_seqs p) i0 = Some q00 /\ q_req q00 = q_req q0).
+          { intros i0 q0 E0. destruct (Nat.eq_dec idx i0) as [<-|H0].
+            - rewrite get_seq_set_same in E0 by auto. injection E0 as <-. exists q. auto.
+            - rewrite get_seq_set_other in E0 by auto. exists q0. auto. }
+          destruct (G _ _ E1) as (q10 & E10 & S1), (G _ _ E2) as (q20 & E20 & S2).
+          eapply (m2_req _ _ _ _ _ H2); eauto. congruence.
+      + exists []. rewrite app_nil_r. split; [reflexivity|intros e []].
+      + intros k q2 E2. destruct (Nat.eq_dec idx k) as [<-|Hk].
+        * rewrite get_seq_set_same in E2 by auto. injection E2 as <-. exists q. auto.
+        * rewrite get_seq_set_other in E2 by auto. eauto.
+  Qed.
 End Ref.
